@@ -162,7 +162,7 @@ func coqMime(m *mimetype.MIME) string {
 	}
 	var nodes []string
 	for x := m; x != nil; x = x.Parent() {
-		nodes = append(nodes, fmt.Sprintf("MN %s %s %s", coqBool(x.Is("text/plain")), coqBool(x.Is("application/pdf")), coqHex([]byte(x.String()))))
+		nodes = append(nodes, fmt.Sprintf("MN %s %s %s %s", coqBool(x.Is("text/plain")), coqBool(x.Is("application/pdf")), coqBool(x.Is("application/vnd.apple.mpegurl")), coqHex([]byte(x.String()))))
 	}
 	return coqList(nodes)
 }
